@@ -8,7 +8,7 @@ From SebufProofs Require Import EmitFacts.
    expression the emitters print meets the requirement it puts on the Go type of the field it
    touches, no method / package-level declaration / literal key is declared twice, every referenced
    identifier exists, every import is used, every printf call has as many verbs as arguments; and
-   no TypeScript block declares a const twice (that part now holds for EVERY schema: C13_ts_loads_always). *)
+   no TypeScript module fails to load. *)
 Theorem C13_builds : forall sc, accepted sc = true -> defects_C13 sc = [] ->
   (forall ps, go_builds sc ps = true /\ go_vets sc ps = true) /\ ts_loads sc = true.
 Proof. exact C13_builds_lemma. Qed.
@@ -48,9 +48,45 @@ Theorem C13_ts_query_parser_has_url : forall sc sv md,
   mem_str (s "params") (ts_route_consts sc sv md) = true -> mem_str (s "url") (ts_route_consts sc sv md) = true.
 Proof. exact ts_query_parser_has_url. Qed.
 Print Assumptions C13_ts_query_parser_has_url.
-Theorem C13_ts_loads_always : forall sc, ts_loads sc = true.
-Proof. exact ts_loads_always. Qed.
-Print Assumptions C13_ts_loads_always.
+Theorem C13_ts_server_loads_always : forall sc fl, ts_server_loads sc fl = true.
+Proof. exact ts_server_loads_always. Qed.
+Print Assumptions C13_ts_server_loads_always.
+(* the TS client is left with two name-driven failures (a method called Constructor, a header whose
+   property name is not an identifier); without them every module loads *)
+Theorem C13_ts_loads_of_tags : forall sc, ts_tags sc = [] -> ts_loads sc = true.
+Proof. exact ts_loads_of_tags. Qed.
+Print Assumptions C13_ts_loads_of_tags.
+
+(* Hostile identifiers.  Field, path-variable and query names that are reserved words of Go or
+   ECMAScript, predeclared identifiers, or locals of the emitted functions are harmless on this tree
+   (Go capitalises them, TS reaches them by property access), and so are such method, service and
+   header names: *)
+Example C13_hostile_names_harmless :
+  accepted hostile_harmless = true /\ defects_C13 hostile_harmless = [] /\
+  go_vets hostile_harmless OnlyHttp = true /\ go_vets hostile_harmless OnlyClient = true /\ go_vets hostile_harmless Both = true /\
+  ts_loads hostile_harmless = true.
+Proof. exact hostile_harmless_builds. Qed.
+(* ... the names that do break the emitted code: *)
+Theorem C13_refuted_ts_client_method_named_constructor :
+  let sc := verbs_schema ["Get"; "Constructor"]%string in
+  accepted sc = true /\ defects_C13 sc = [s "ts-client-method-named-constructor"] /\ ts_loads sc = false /\
+  ts_server_loads sc (hd (file_of "" [] [] []) sc) = true /\ go_vets sc Both = true.
+Proof. exact w_ts_constructor. Qed.
+Theorem C13_refuted_ts_client_header_property_not_identifier :
+  let sc := hdr_schema [] ["X-1st"]%string [] in
+  accepted sc = true /\ defects_C13 sc = [s "ts-client-header-property-not-identifier"] /\ ts_loads sc = false /\ go_vets sc Both = true.
+Proof. exact w_ts_header_prop. Qed.
+Theorem C13_refuted_method_named_generic : exists sc, refuted sc ["method-named-generic"%string] OnlyHttp ["type"%string].
+Proof. eexists. exact w_method_generic. Qed.
+Example C13_method_named_generic_last_builds :
+  let sc := verbs_schema ["Other"; "Generic"]%string in defects_C13 sc = [] /\ go_vets sc Both = true.
+Proof. exact method_generic_last_builds. Qed.
+Theorem C13_refuted_package_declaration_clash_method_bind : exists sc, refuted sc ["package-declaration-clash"%string] OnlyHttp ["redeclared"%string].
+Proof. eexists. exact w_method_bind. Qed.
+Theorem C13_refuted_package_declaration_clash_message_named_like_helper : exists sc, refuted sc ["package-declaration-clash"%string] OnlyHttp ["redeclared"%string].
+Proof. eexists. exact w_message_named_like_helper. Qed.
+Theorem C13_refuted_field_named_like_codec_method : exists sc, refuted sc ["field-named-like-codec-method"%string] OnlyClient ["redeclared"%string].
+Proof. eexists. exact w_field_named_marshaljson. Qed.
 
 (* positive examples for the three repaired classes (ffb4b75, e425100, cbe68e9) *)
 Example C13_discriminated_oneof_vets :
